@@ -146,3 +146,32 @@ func Compare(p *Program, exp Expected, o *Outcome) string {
 	}
 	return ""
 }
+
+// OnlyStaleStores reports whether every difference between the outcome and the
+// expectation is a cell that holds the value of an EARLIER store of the same
+// work-item to that same cell (i.e. two same-address stores took effect in the
+// wrong order) and there is at least one such difference.
+func OnlyStaleStores(exp Expected, o *Outcome) bool {
+	if o.GuardBad != "" {
+		return false
+	}
+	n := 0
+	for k := 0; k < 2; k++ {
+		for i := range exp.Out[k] {
+			if o.Out[k][i] == exp.Out[k][i] {
+				continue
+			}
+			ok := false
+			for _, v := range exp.Earlier[k][i] {
+				if v == o.Out[k][i] {
+					ok = true
+				}
+			}
+			if !ok {
+				return false
+			}
+			n++
+		}
+	}
+	return n > 0
+}
